@@ -60,10 +60,13 @@ impl<'a> Message<'a> {
             } else {
                 0
             };
-            let (rest, last_param) = if let Some((rest, lp)) = trimmed[start_pos..].split_once(':')
-            {
-                // get rest. add first character length to rest length.
-                (&trimmed[0..rest.len() + start_pos], Some(lp))
+            // last parameter starts at first ':' that begins a parameter (after whitespace).
+            let (rest, last_param) = if let Some(pos) = (start_pos..trimmed.len()).find(|i| {
+                trimmed.as_bytes()[*i] == b':'
+                    && *i > 0
+                    && trimmed.as_bytes()[*i - 1].is_ascii_whitespace()
+            }) {
+                (&trimmed[0..pos], Some(&trimmed[pos + 1..]))
             } else {
                 (trimmed, None)
             };
